@@ -25,6 +25,21 @@ CHECKS = {
  "C06": ("H-seq", "exploration", "bounded-progress monitor: logical step budget from the hook step counter, plus post-conditions on every match",
          "Liveness restated as bounded progress: every match of every zero-heavy history returns within 2*10^6 shared-memory steps, leaves no displayed quantity when unfilled, and executes at least min(requested, displayed).",
          "Cannot prove termination; generators keep legitimate matches below 10^4 replenishment rounds.", "4/C06"),
+ "C07": ("H-seq", "exploration", "contract monitor on observation-before/after + twin-level differential execution (one twin additionally receives read-only calls)",
+         "Every update of every update-heavy history is judged against the statement's contract (returned order = current state, only that order removed, unknown id / same-price price update without effect, amended display for Standard/PostOnly/Iceberg, never trades after removal); every history is re-run on a twin that also receives listing/snapshot/serialisation/statistics reads and all results and observations must agree.",
+         "Transaction timestamps are excluded from the twin comparison (wall clock); listings are compared as multisets.", "4/C07"),
+ "C10": ("H-seq", "exploration", "round-trip monitor at random points of seeded histories + adversarial inputs with lying aggregate fields",
+         "At random points of histories (so after fills, replenishments, amends) the level is rebuilt through all seven routes and compared field for field; each constructor is also fed a snapshot / level data / JSON / text whose aggregate fields disagree with its orders (package route with a harness-computed checksum so only recomputation can save it).",
+         "Listings compared as multisets plus a separate non-decreasing-timestamp check.", "4/C10"),
+ "C11": ("H-seq", "exploration", "twin-level differential execution (original vs restored) with the ticket model used only to classify known findings",
+         "Each case restores a level reached by a random history through one of the four snapshot routes and applies the same random continuation (incl. a final drain) to both; differing maker sequences are accepted only when both are exactly what the catalogued queue mechanics predict and a catalogued cause (K3a/K3b) is present.",
+         "Continuations of 2-10 operations plus drain; clean modes (increasing timestamps, exact fills, no id re-use) require plain equivalence.", "4/C11"),
+ "C15": ("H-seq (+E1 for the concurrent half)", "exploration", "shadow-counter monitor fed from client-boundary events, compared with stats() after every operation",
+         "orders_added / orders_removed / quantity_executed / value_executed are compared with counters derived from the operations issued and the results returned, after every operation of sequential histories (concurrent half: at quiescence of scheduled executions).",
+         "Levels created with PriceLevel::new; orders carry the level price; positive quantities.", "4/C15"),
+ "C19": ("queue", "exploration", "lock-step reference model (FIFO with removal by id) over seeded call sequences on OrderQueue; stale-ticket model only to classify K2",
+         "Every pop / find / remove / len / is_empty / to_vec of random call sequences is compared with a reference FIFO; constructors (from_vec, From<Vec>, FromStr of Display, serde) are checked for content and list order; a disagreeing pop is tolerated only with the exact K2 signature, never in sequences that do not re-push a removed id.",
+         "An id is never pushed while it is queued (as the statement quantifies).", "4/C19"),
 }
 
 NOT_YET = {}
